@@ -393,6 +393,20 @@ def shape_f3(case):
     return False
 
 
+def _alias_count(cmd):
+    return sum(1 for s in cmd["stages"] if STAGES[s][2] and s != "aunth")
+
+
+def shape_f4(case):
+    """>= 3 stages with an external big producer that has at least two stages after it."""
+    return any("big" in cmd["stages"][:-2] for cmd in case["cmds"] if len(cmd["stages"]) >= 3)
+
+
+def shape_f6_cmd(cmd, case):
+    """Threaded callable alias inside a pipeline of >= 2 stages."""
+    return _threaded(case) and len(cmd["stages"]) >= 2 and _alias_count(cmd) >= 1
+
+
 def _f1_resource_problem(p, blocked_alias, redirected):
     if p.startswith(("fd-leak:", "fd-growth:")):
         return not any(k in p for k in (("->pty", "->socket", "->anon_inode") + (() if redirected else ("->file",))))
@@ -403,7 +417,11 @@ def _f1_resource_problem(p, blocked_alias, redirected):
     return False
 
 
-def classify(case, level, group, probs):
+def classify(case, level, group, probs, hang_cmd=None, also=()):
+    if level == "hang":
+        if hang_cmd is not None and shape_f6_cmd(hang_cmd, case):
+            return "C09-F6"
+        return None
     if shape_f1(case):
         blocked = shape_f1_blocked_alias(case)
         redirected = any(cmd.get("redir") and cmd["redir"][0] == "valid" and any(s in NOSTART for s in cmd["stages"][cmd["redir"][1] + 1:])
@@ -415,12 +433,21 @@ def classify(case, level, group, probs):
                 return "C09-F1"
             if group == "sigint" and all("surfaced as None" in p and "ProcProxyThread._signal_int" in p for p in probs):
                 return "C09-F1"
+    if group == "resources" and level == "immediate" and shape_f4(case) and all(p.startswith("child-unreaped:") for p in probs):
+        return "C09-F4"
     if group == "handler" and shape_f2(case):
         if all(p.startswith("handler SIGINT:") and p.endswith("-> ProcProxyThread._signal_int") for p in probs):
             return "C09-F2"
     if group == "std" and shape_f3(case):
         if all(p.startswith(("sys.stdout replaced:", "sys.stderr replaced:")) and p.endswith("-> FileThreadDispatcher") for p in probs):
             return "C09-F3"
+    if group == "std-closed" and shape_f3(case):
+        if all(p.startswith(("closed sys.stdout:", "closed sys.stderr:")) for p in probs):
+            return "C09-F5"
+    if group == "sigint" and "std-closed" in also and shape_f3(case):
+        # a non-last alias thread died printing to the closed stream: returncode None, its SIGINT handler (F2) swallows the signal
+        if all("surfaced as None" in p and "ProcProxyThread._signal_int" in p for p in probs):
+            return "C09-F5"
     return None
 
 
@@ -447,6 +474,8 @@ def _run_src(src):
 def _group_of(problem):
     if problem.startswith(("fd-", "child-", "thread-")):
         return "resources"
+    if problem.startswith("closed sys."):
+        return "std-closed"
     if problem.startswith("sys."):
         return "std"
     if problem.startswith("handler "):
@@ -505,6 +534,8 @@ def _restore_baseline():
     impossible; the worker then stops evaluating cases."""
     st = _state
     ob = st["ob"]
+    if any(ob._is_closed(x) for x in st["std"]):
+        _recreate_std()
     sys.stdin, sys.stdout, sys.stderr = st["std"]
     for name, h in st["handlers"].items():
         try:
@@ -561,7 +592,40 @@ def _restore_baseline():
     left = _dirty()
     if not left:
         return None
+    if os.environ.get("C09_DEBUG"):
+        import faulthandler
+
+        with open(os.environ["C09_DEBUG"], "a") as f:
+            f.write("---- restore failed: %s\n" % left)
+            import threading
+
+            for t in threading.enumerate():
+                f.write("   %r alive=%s ident=%s native=%s\n" % (t, t.is_alive(), t.ident, getattr(t, "native_id", None)))
+            faulthandler.dump_traceback(file=f)
     return "could not restore a clean worker after a case (%s left behind)" % ",".join(left)
+
+
+def _recreate_std():
+    """xonsh closed the Python object behind sys.stdout / sys.stderr (finding C09-F5).  A fresh process
+    would have open ones: make new objects on the same descriptors and hand them to xonsh's dispatchers,
+    which captured the originals at import time."""
+    st = _state
+    std = list(st["std"])
+    modes = ("r", "w", "w")
+    for i, x in enumerate(std):
+        if st["ob"]._is_closed(x):
+            std[i] = open(i, modes[i], closefd=False)
+    st["std"] = tuple(std)
+    try:
+        import xonsh.procs.proxies as px
+
+        px.STDOUT_DISPATCHER.default = std[1]
+        px.STDERR_DISPATCHER.default = std[2]
+        px.STDOUT_DISPATCHER.registry.clear()
+        px.STDERR_DISPATCHER.registry.clear()
+    except Exception:  # noqa: BLE001
+        pass
+    sys.__stdout__, sys.__stderr__ = std[1], std[2]
 
 
 def _extra_threads():
@@ -582,30 +646,42 @@ def check_case(case, tolerate=frozenset(), stats=None):
     gc.collect()
     gc.disable()
     tty_fd = st["tty_fd"]
+    std0 = st["std"]
 
     def snap():
         return ob.snapshot(XSH, tty_fd=tty_fd)
 
-    srcs = [c["src"] for c in case["cmds"]]
+    cmds = case["cmds"]
     failures = []
     notes = []
     found = {}          # (level, group) -> problems
+    hang = None         # the command (dict) that did not return
+    excs = []
 
-    def note(label):
-        notes.append(label)
+    def run_sequence(record=False):
+        """One pass over the command lines.  -> 'hang' | 'std-closed' | None"""
+        nonlocal hang
+        for cmd in cmds:
+            r = _run_src(cmd["src"])
+            if record:
+                excs.append(r)
+            if r == "HANG":
+                hang = cmd
+                return "hang"
+            if any(ob._is_closed(x) for x in std0):
+                return "std-closed"     # nothing after this point can be trusted to print; stop repeating
+        return None
 
-    def compare(level, base, grace_base):
-        cur, _w = ob.settle(grace_base, snap, GRACE_S)
+    def compare(level, base):
+        cur, _w = ob.settle(base, snap, GRACE_S)
         res = ob.diff_resources(base, cur)
         if res:
             gc.collect()
-            cur2, _w = ob.settle(grace_base, snap, 0.2)
+            cur2, _w = ob.settle(base, snap, 0.2)
             res2 = ob.diff_resources(base, cur2)
             if not res2:
-                note("released-only-by-gc:" + level)
-                res, cur = [], cur2
-            else:
-                res, cur = res2, cur2
+                notes.append("released-only-by-gc:" + level)
+            res, cur = res2, cur2
         probs = res + ob.diff_state(base, cur, env_ignore=ENV_IGNORE)
         for g, ps in _grouped(probs).items():
             found[(level, g)] = ps
@@ -613,26 +689,15 @@ def check_case(case, tolerate=frozenset(), stats=None):
 
     try:
         s0 = ob.snapshot(XSH, tty_fd=tty_fd, live=True)
-        excs = []
-        hang = None
-        for src in srcs:
-            r = _run_src(src)
-            excs.append(r)
-            if r == "HANG":
-                hang = src
-                break
-        if hang is None:
-            s1 = compare("immediate", s0, s0)
-            if case["reps"] > 1:
+        stop = run_sequence(record=True)
+        if stop != "hang":
+            s1 = compare("immediate", s0)
+            if case["reps"] > 1 and stop is None:
                 for _ in range(case["reps"] - 1):
-                    for src in srcs:
-                        r = _run_src(src)
-                        if r == "HANG":
-                            hang = src
-                            break
-                    if hang is not None:
+                    stop = run_sequence()
+                    if stop is not None:
                         break
-                if hang is None:
+                if stop != "hang":
                     sn, _w = ob.settle(s0, snap, GRACE_S)
                     growth = ob.diff_counts(s1, sn)
                     if growth:
@@ -640,46 +705,55 @@ def check_case(case, tolerate=frozenset(), stats=None):
                         sn, _w = ob.settle(s0, snap, 0.2)
                         growth2 = ob.diff_counts(s1, sn)
                         if not growth2:
-                            note("released-only-by-gc:steady")
+                            notes.append("released-only-by-gc:steady")
                         growth = growth2
                     if growth:
                         found[("steady", "resources")] = growth
-        if hang is None:
+        if stop != "hang":
             r = _run_src("_p = None\n_x = None\n_r = None\naneutral\n")
             if r == "HANG":
-                hang = "aneutral"
-            elif r is not None:
+                hang = {"src": "aneutral\n", "stages": ["aneutral"], "form": "bare", "redir": None}
+                stop = "hang"
+            elif r is not None and stop is None:
                 found[("strict", "other")] = ["the neutral alias command raised %s" % r]
-        if hang is None:
-            compare("strict", s0, s0)
+        if stop != "hang":
+            compare("strict", s0)
             got = _sigint_probe()
             if got != "KeyboardInterrupt":
                 found[("sigint", "sigint")] = ["a self-sent SIGINT surfaced as %r instead of KeyboardInterrupt (handler was %s)" % (
                     got, ob.describe_handler(signal.getsignal(signal.SIGINT)))]
     except _Timeout:
-        hang = "harness step"
+        hang = hang or {"src": "<harness step>", "stages": [], "form": "bare", "redir": None}
     finally:
         signal.setitimer(signal.ITIMER_REAL, 0)
         gc.enable()
 
+    for exc in excs:
+        notes.append("exc:%s" % exc)
     if hang is not None:
-        failures.append(Failure("hang", case, "command did not return within %.0f s: %r" % (HANG_S, hang), bucket="hang"))
-        st["tainted"] = "a command hung"
-    else:
-        for exc in excs:
-            note("exc:%s" % exc)
-        # a strict failure implies the immediate one; report the strongest only
-        for (level, group), probs in sorted(found.items()):
-            if level == "immediate" and ("strict", group) in found and _same_classes(found[("strict", group)], probs):
-                continue
-            fid = classify(case, level, group, probs)
-            if fid is not None and fid in tolerate:
-                if stats is not None:
-                    stats.excluded_known[fid] += 1
-                continue
-            classes = sorted({p.split(":")[0] if group not in ("env", "sigint") else group for p in probs})
-            failures.append(Failure("%s:%s" % (level, group), case, "[%s] %s" % (level, "; ".join(probs)[:900]), finding=fid,
-                                    bucket=fid or "%s:%s:%s" % (level, group, "+".join(classes))))
+        closed = [n for n, x in zip(("stdin", "stdout", "stderr"), std0) if ob._is_closed(x)]
+        fid = classify(case, "hang", "hang", [], hang_cmd=hang if hang.get("stages") else None)
+        if fid is not None and fid in tolerate:
+            if stats is not None:
+                stats.excluded_known[fid] += 1
+        else:
+            failures.append(Failure("hang", case, "command did not return within %.0f s: %r%s" % (
+                HANG_S, hang["src"], (" (the shell's own sys.%s object is closed)" % "/".join(closed)) if closed else ""),
+                finding=fid, bucket=fid or "hang"))
+        if stats is not None:
+            stats.hist["hang"] += 1
+    # a strict failure implies the immediate one; report the strongest only
+    for (level, group), probs in sorted(found.items()):
+        if level == "immediate" and ("strict", group) in found and _same_classes(found[("strict", group)], probs):
+            continue
+        fid = classify(case, level, group, probs, also={g for (_l, g) in found})
+        if fid is not None and fid in tolerate:
+            if stats is not None:
+                stats.excluded_known[fid] += 1
+            continue
+        classes = sorted({p.split(":")[0] if group not in ("env", "sigint") else group for p in probs})
+        failures.append(Failure("%s:%s" % (level, group), case, "[%s] %s" % (level, "; ".join(probs)[:900]), finding=fid,
+                                bucket=fid or "%s:%s:%s" % (level, group, "+".join(classes))))
     reason = _restore_baseline()
     if reason and not st["tainted"]:
         st["tainted"] = reason
@@ -788,16 +862,32 @@ def case_strategy(tier):
 # workers
 
 
+def _keep(case, one_in):
+    return int(common.h64(case_key(case)), 16) % one_in == 0
+
+
 def _evaluate(case, st, family):
     s = _state
     if s["tainted"]:
         st.discards += 1
         return
     open_ids = s["open"]
-    if "C09-F1" in open_ids and shape_f1(case) and common.h64(case_key(case))[-1] not in "01":
-        # every instance costs the full grace period several times; keep one in eight while the finding is open
+    # Shapes of open findings are thinned out (not removed): each instance costs seconds (full grace period, the
+    # 3 s stall of F4, a 30 s hang for the races F5/F6) and adds nothing once the finding is recorded.
+    if "C09-F1" in open_ids and shape_f1(case) and not _keep(case, 8):
         st.excluded_known["C09-F1"] += 1
         return
+    if "C09-F4" in open_ids and shape_f4(case) and not _keep(case, 8):
+        st.excluded_known["C09-F4"] += 1
+        return
+    racy = [f for f in ("C09-F3", "C09-F5", "C09-F6") if f in open_ids]
+    if racy and shape_f3(case):
+        if not _keep(case, 3):
+            for f in racy:
+                st.excluded_known[f] += 1
+            return
+        if case["reps"] > 3:
+            case = dict(case, reps=3)
     nontrivial, labels = case_labels(case)
     fails = check_case(case, tolerate=open_ids, stats=st)
     st.case(case_key(case), nontrivial, [family] + labels, sample={"cfg": case["cfg"], "src": [c["src"] for c in case["cmds"]],
@@ -821,7 +911,7 @@ def _shrink(st, tier, seed):
     repetitions; keep the same bucket)."""
     out = []
     for f in st.failures:
-        if _state["tainted"] or f.kind == "hang":
+        if _state["tainted"] or f.kind == "hang" or (f.finding and f.finding in _state["open"]):
             out.append(f)
             continue
         out.append(_shrink_one(f))
